@@ -15,18 +15,31 @@ def reconf(timeout=1500, solver="kissat"):
     h.what = "re-configuration as an induction step: arbitrary earlier configuration (binning in {1,2,4,8}, clamped shape, type) whose buffers satisfy the size invariant, then one fully symbolic simcam_set: same obligations (buffers >= extent of the NEW full-resolution render)"
     return h
 
+def t2(kernel, wmax, hmax, timeout=1500, solver="cadical", wmin=1):
+    nm = {1: "im_fill_rand", 2: "bin2", 3: "bin_cascade"}[kernel]
+    return H("loops_%s_w%d-%d_h%d" % (nm, wmin, wmax, hmax), "harness/simcam/tier2.c", repo=[COMP], env=ENV,
+             defines=["KERNEL=%d" % kernel, "WMAX=%d" % wmax, "HMAX=%d" % hmax, "WMIN=%d" % wmin], cflags=["-mavx2"],
+             unwind=max(wmax * hmax // 32 + 6, hmax + 2, 12), unwindset={"im_fill_rand.0": wmax * hmax + 12, "main.0": max(wmax - wmin, hmax) + 3, "main.1": max(wmax - wmin, hmax) + 3, "main.2": max(wmax - wmin, hmax) + 3, "one_shape.0": 6}, solver=solver, timeout=timeout, mem_gb=28, est_gb=(18 if kernel != 1 else 1), nobody_ok=[r"__builtin_ia32_"],
+             what="real %s on an end-anchored arena (buffer = last E bytes of a fixed object, E = extent assumed by tier 1): every load/store inside for all shapes up to %d x %d" % (nm, wmax, hmax),
+             bounds=dict(width="1..%d" % wmax, height="1..%d" % hmax))
+
 def harnesses(tier, findings):
+    if tier == "plain":
+        a = t2(2, 40, 6, 900); a.cflags = []; a.name += "_plain"; a.nobody_ok = []; a.unwind = 50
+        return [a]
     if tier == "probe":
-        return [reconf(solver="kissat", timeout=1200), reconf(solver="cadical", timeout=1200)]
+        return [t2(1, 16, 4, 600), t2(2, 40, 6, 600), t2(3, 40, 8, 600), t2(2, 100, 6, 600, wmin=41)]
     if tier == "quick":
-        return [t1(1), reconf()]
-    return [t1(1), reconf(3000)]
+        return [t1(1), reconf(), t2(1, 16, 4, 600), t2(2, 64, 6, 600), t2(3, 40, 8, 600)]
+    return [t1(1), reconf(3000), t2(1, 32, 8, 3000)] + [t2(2, hi, 8, 3000, wmin=lo) for lo, hi in ((1, 64), (65, 110), (111, 140))] + \
+           [t2(3, hi, 8, 3000, wmin=lo) for lo, hi in ((1, 40), (41, 70), (71, 96), (97, 130))]
 
 META = dict(
     level="model_checking",
-    bounds=dict(quick="one set from the initial camera state, all kinds, full 32-bit shape/offset range, all binnings and types",
-                thorough="two successive sets (re-configuration); real render/bin loops on a small shape box (tier 2)"),
+    bounds=dict(quick="tier 1: one set from the initial camera state and one re-configuration step from an arbitrary earlier configuration, full 32-bit shape/offset range, all binnings and types; tier 2: im_fill_rand for all shapes <= 16x4 and types (symbolic), AVX2 bin2 and the binning cascade (2,4,8) for every shape <= 64 x 6/8 (enumerated, see harness)",
+                thorough="tier 2 boxes: im_fill_rand 32x8, bin2 widths 1..140 x heights 1..8, cascade widths 1..130 x heights 1..8"),
     outside="re-configuration while the streamer thread is running (buffers are reallocated under it); allocation failure",
     assumptions=["popcount_u8 (C++ std::popcount) replaced by a C bit-count model", "realloc stub records the requested size; lock model of env/plat_seq.c",
-                 "pattern renderers (C++) stubbed in tier 1 (not reached)"],
+                 "pattern renderers (C++, imfill.pattern.cpp) are stubbed: their extent is not decided (their loops write width*height elements through the strides of the full-resolution shape)",
+                 "AVX2 intrinsics have no body under CBMC (arbitrary lane values); bin2's accesses depend on (w,h) only"],
 )
